@@ -279,6 +279,16 @@ def gen_op(rng, npool, isint, iscomplex, struct):
     if '**' in form:
         op['n'] = rng.choice([0, 1, 2, 3, 4, 5, 6, -1, -2, -3])
     op['fill'] = rng.choice(GARBAGE)
+    if rng.random() < 0.2 and form not in ('a+xi', 'a-xi', 'a*xi', 'a/xi'):
+        # the scalars as NumPy scalar types instead of Python numbers.  Not
+        # np.float32 (odl adds two such scalars in float32, which is what the
+        # caller asked for, but not what a float64 model computes) and not as
+        # LEFT operand of a binary operator (NumPy's scalar types then take
+        # over and call the ufunc machinery: C17's subject, with NumPy's
+        # dtype promotion instead of "the result is in the space")
+        op['stype'] = rng.choice(['np.int64', 'np.int32'] if isint else
+                                 ['np.float64', 'np.float64', 'np.int64',
+                                  'np.complex128'])
     if struct != 'leaf' and 'x0' not in form and rng.random() < 0.25:
         # operate on the p-th *parts* of the containers (elements of the
         # component space that are at the same time parts of live containers)
@@ -442,6 +452,23 @@ def _scalar(v):
     return v
 
 
+def _as_numpy_scalar(v, stype, pool):
+    """The same number carried by a NumPy scalar type (where that type can
+    hold it and the field of the space accepts it)."""
+    iscomplex = np.dtype(pool.cfg['leaf']['dtype']).kind == 'c'
+    if isinstance(v, complex):
+        return np.complex128(v) if stype == 'np.complex128' else v
+    if stype in ('np.int64', 'np.int32'):
+        if float(v) != int(v):
+            return v
+        return getattr(np, stype[3:])(int(v))
+    if stype == 'np.complex128':
+        return np.complex128(v) if iscomplex else v
+    if pool.isint:
+        return v
+    return getattr(np, stype[3:])(v)
+
+
 def model_leaf(kind, A, B, a, b, n, mdt):
     """Expected value and entry-wise magnitude bound of one leaf."""
     with np.errstate(all='ignore'):
@@ -580,6 +607,10 @@ class Run(object):
         xi, xj, xk = objs[op['i']], objs[op['j']], objs[op['k']]
         a = _scalar(op.get('a', 1))
         b = _scalar(op.get('b', 1))
+        if op.get('stype'):
+            a, b = _as_numpy_scalar(a, op['stype'], pool), \
+                _as_numpy_scalar(b, op['stype'], pool)
+            self.ctx.fired('numpy-scalar-' + op['stype'])
         n = op.get('n', 2)
         S = pool.S
         if 'part' in op and hasattr(xi, 'parts') and len(xi.parts) > 0:
